@@ -523,7 +523,18 @@ class ASTTypeBuilder:
                         [ext_field],
                     )
                 field_names.add(ext_field.name.value)
-                fields.append(self._build_input_field(ext_field))
+                new_field = self._build_input_field(ext_field)
+                # The field type must go through the same extension pass
+                # as every other reference to it (lazily: it can be cyclic).
+                fields.append(
+                    InputField(
+                        new_field.name,
+                        ft.partial(self.extend_type, new_field.type),
+                        default_value=new_field._default_value,
+                        description=new_field.description,
+                        node=new_field.node,
+                    )
+                )
 
         return InputObjectType(
             name,
